@@ -27,7 +27,7 @@ RULE = ("examples_per_shard in {1,2,3,4,5,7,16} x per-split counts {0,1,k*eps-1,
         "metadata-change positions, rejected-write positions); non-trivial iff >=1 roll-over happened.")
 ASSUMPTIONS = ["a write rejected by validation does not count as an example"]
 
-METAS = [{"k": 1}, {"k": 2}, {"k": "a", "n": [1, 2]}]
+METAS = [{"k": 1}, {"k": 2}, {"k": "a", "n": [1, 2]}, {"shape": [3, 4]}, {"shape": [3, 4], "k": 1}]
 
 
 def gen_one(rng: random.Random, tier: str) -> dict:
@@ -61,6 +61,8 @@ def gen_one(rng: random.Random, tier: str) -> dict:
                     current = None
                 if current is not None:
                     write["meta"] = {"lit": current}
+                    if "shape" in current:
+                        write["meta"]["as_tuple"] = ["shape"]
         if with_bad and writes:
             # rejected writes right at shard boundaries (after k*eps accepted writes of that split)
             out, per_split = [], Counter()
